@@ -418,6 +418,29 @@ class _Solutions(object):
         return [sol, BaseSolution("Second.", "Another hint")] if shape in ("plain", "nodesc") else [sol]
 
 
+def _context_chain(n):
+    """n exceptions, each one raised (each has a traceback), linked through __context__ by assignment - built in a loop"""
+    head = None
+    for k in range(n):
+        try:
+            raise ValueError("link %d <b>" % k)
+        except ValueError as x:
+            x.__context__ = head
+            head = x
+    return head
+
+
+def _link_context(e, ctx):
+    """ctx = "long1200" | "long1500": e is the last of that many failures, each raised while the one before was on record (a retry
+    loop) - more links than the interpreter's recursion limit;  "circular": two errors naming each other as context / cause"""
+    if ctx.startswith("long"):
+        e.__context__ = _context_chain(int(ctx[4:]))
+    else:
+        a, b = _context_chain(1), _context_chain(1)
+        a.__context__, b.__context__, b.__cause__ = b, a, a
+        e.__context__ = a
+
+
 def run_history(case, shared=None):
     """the case's exception is raised once and rendered once per entry of case["renders"] ([{"pat", "verb"}]; pat = which
     directory ignore_files_in() gets: "none" | "lib" | "app") in this process -> one "render" event per render"""
@@ -426,6 +449,8 @@ def run_history(case, shared=None):
     from clikit.ui.components.exception_trace import ExceptionTrace
 
     e = raise_case(case)
+    if case.get("ctx", "none") != "none":
+        _link_context(e, case["ctx"])
     base = real_frames(e)
     msg = str(e)
     events = []
@@ -535,7 +560,7 @@ def random_render_case(rng):
             chain.append({"kind": "ping", "ign": rng.random() < 0.3, "n": rng.choice([1, 2, 5, 20])})
     kind = rng.choice(EXC_KINDS)
     return {"solutions": origin == "file" and rng.random() < 0.25, "solshape": rng.choice(SOLUTION_SHAPES), "shape": rng.choice(NOT_PYTHON),
-            "compiled": rng.random() < 0.4,
+            "compiled": rng.random() < 0.4, "ctx": rng.choice(["none"] * 14 + ["long1200", "long1500", "circular", "circular"]),
             "origin": origin, "fname": rng.choice(["</error>", "<b>", "x</info>y", "<template>", "dir\\"]),
             "src": make_source(rng, at_top=rng.random() < 0.15), "exc": kind, "msg": rng.choice(MESSAGES),
             "chain": chain, "verb": rng.choice([0, 0, 1, 2, 3, 3]), "utf8": rng.random() < 0.7, "ignoring": rng.random() < 0.5,
@@ -726,7 +751,7 @@ def run(ctx):
         "Every emitted input is replayed on the real classes and compared.  Exceptions raised through generated source files "
         "(failing statement at varying positions incl. the first rows, multi-row statements and strings, comments, tabs, "
         "non-ASCII, markup-like text, characters str.splitlines() takes for line ends: U+2028/2029, FF, NEL, FS/GS/RS), through exec'd and file-less code (also compiled under file names that look like style tags, and under the names of existing files that are not Python: unterminated string, unbalanced brackets, bad dedent, NUL byte, binary bytes, empty, shorter than the line number), with 33 adversarial messages x 8 exception kinds, "
-        "a cause, call chains through ignored / not ignored modules and recursion (direct, mutual) up to depth 60 are rendered "
+        "a cause (also __context__ chains of 1200 / 1500 links - beyond the recursion limit - and circular ones), call chains through ignored / not ignored modules and recursion (direct, mutual) up to depth 60 are rendered "
         "at every verbosity, UTF-8 on/off, with/without an ignore pattern, simple/full; what was written is tokenised "
         "(head lines, listing entries, snippet rows with the source rows) and ErrorReportTrace decides every P-clause; the "
         "highlighter alone runs on generated modules (token stream shipped: TLC re-runs the assembly and decides which rows "
